@@ -59,7 +59,7 @@ func FactsC11(f *hc.Facts) {
 	f.Str("alignCond", alignSrc, "crypto.DecryptExchangeAnswer: block alignment condition")
 	// GuessDataWithHash
 	gd := f.FuncDecl("crypto", "GuessDataWithHash")
-	tries, minCond, endCond, vSrc, dataSrc := "", "", "", "", ""
+	tries, minCond, endCond, vSrc, dataSrc, cmpSrc, hSrc := "", "", "", "", "", "", ""
 	if gd != nil && gd.Body != nil {
 		ast.Inspect(gd.Body, func(n ast.Node) bool {
 			switch s := n.(type) {
@@ -83,6 +83,9 @@ func FactsC11(f *hc.Facts) {
 				if strings.HasPrefix(c, "len(dataWithHash)-i") {
 					endCond = c
 				}
+				if strings.Contains(c, "Equal") || strings.Contains(c, "==") {
+					cmpSrc = c
+				}
 			case *ast.AssignStmt:
 				if len(s.Lhs) == 1 && len(s.Rhs) == 1 {
 					switch f.Src(s.Lhs[0]) {
@@ -90,6 +93,8 @@ func FactsC11(f *hc.Facts) {
 						vSrc = f.Src(s.Rhs[0])
 					case "data":
 						dataSrc = f.Src(s.Rhs[0])
+					case "h":
+						hSrc = f.Src(s.Rhs[0])
 					}
 				}
 			}
@@ -105,4 +110,6 @@ func FactsC11(f *hc.Facts) {
 	f.Str("guessEndCond", endCond, "crypto.GuessDataWithHash: end-of-slice test inside the loop")
 	f.Str("guessHashSlice", vSrc, "crypto.GuessDataWithHash: v")
 	f.Str("guessDataSlice", dataSrc, "crypto.GuessDataWithHash: data")
+	f.Str("guessHashOf", hSrc, "crypto.GuessDataWithHash: h")
+	f.Str("guessCompare", cmpSrc, "crypto.GuessDataWithHash: acceptance condition")
 }
